@@ -397,7 +397,7 @@ fn main() {
                 hit
             });
             let (pp, dn, sd) = (p.clone(), done.clone(), sends.clone());
-            let early2 = !matches!(name.as_str(), "start" | "continue")
+            let early2 = name != "continue"
                 || sends.iter().all(|s| s["after"][0] == "wait" && s["after"][1].as_u64().unwrap_or(0) >= 2);
             sched = Some(std::thread::spawn(move || {
                 let mut performed = vec![];
@@ -441,7 +441,7 @@ fn main() {
         }
         // gate credit: at once unless the sends of this command are meant to happen before the thread moves on
         let early = sends.iter().all(|s| s["after"][0] == "wait" && s["after"][1].as_u64().unwrap_or(0) >= 2);
-        if matches!(name.as_str(), "start" | "continue") && early {
+        if name == "continue" && early {
             p.credit();
         }
         let res = run_cmd(&mut cx, &name);
